@@ -304,6 +304,8 @@ func main() {
 			"\"..\" is clamped at the view's root (chroot semantics, as the statement's 'nothing outside dir is reachable' requires)",
 			"relative operands before the first successful Chdir through the view are judged only on 'nothing outside dir is read or changed'",
 			"after the view's root directory has been renamed or removed (through any actor) the property is silent: only no panic/deadlock and no change outside the directory that now holds the view's root node are required",
+			"Remove/RemoveAll/Rename whose operand resolves to the view's own root act on dir's entry in dir's parent, i.e. outside dir; both the parent's behaviour and a root that refuses or is emptied and kept are accepted there: only no panic/deadlock and no change outside dir are required",
+			"signature field viewroot tells whether the acting (or observing) non-admin user has search permission on the view's root directory and on the directories above it, which the parent checks while walking the prefixed path and a view never does",
 			"FileInfo.Name() of the view's root is not compared (a root has no name inside its own namespace); mtimes and file ids are not compared",
 			"state key = injected node-graph dump of the parent (VerifDump: names, types, modes, owners, link classes, bytes) + User/UMask/Getwd of every actor + chdir-done flag + location of every view root",
 			"symlinks are outside the property and not in the alphabet; Linux-typed MemFS only",
